@@ -223,6 +223,8 @@ META = dict(
         "(zip, set_axis, DataFrame from parallel sequences) must join equally tagged operands, and every order-dependent "
         "reduction ([0], [-1], iloc[0], groupby().first/last, diff, shift, ffill, bfill, cumsum, np.diff, consecutive "
         "pairs) must act on a sorted operand.  Label-aligned pandas arithmetic is not a site.  Two sites judged benign "
-        "by reading are frozen in a triage table with their reason; an unresolved tag is an advisory, never a verdict."),
+        "by reading are frozen in a triage table with their reason; an unresolved tag is an advisory, never a verdict.  R5: in "
+        "hitsound_copy every target row at a time is a slot (the slot lookup of C18.R6: a one-row-per-time selection by position makes "
+        "the receiving note depend on the row order)."),
     not_decided="which of several rows with equal keys comes first after a sort (tie order), argmax ties",
 )
